@@ -19,7 +19,9 @@ RULE = ("enumerated: pair counts 1..4 x ALL Bell-state tuples (quick: all tuples
         "known asymmetric states (shifting the virtual IDs) x expect_phi_plus on/off; measure-directly: 6 named bases x 4 "
         "Bell states x both raw outcomes, exact joint distribution computed with R-QUANTUM. Oracle: fidelity of each kept "
         "qubit with its modelled remote partner >= 1-1e-9 w.r.t. Phi+ (or the delivered Bell state when nothing may be "
-        "corrected), every other qubit unchanged. Non-trivial = at least one delivered Bell state differs from Phi+; "
+        "corrected), every other qubit unchanged."
+        ' Keep cases also with the responses handed over as qlink-interface 1.0 objects (named Bell states); recv_measure both with the bases entered into the result object by the application and without. '
+        "Non-trivial = at least one delivered Bell state differs from Phi+; "
         "distinct = distinct case description.")
 ASSUMPTIONS = ["the modelled remote partner holds the other half of the delivered Bell state and is never touched",
                "known finding epr-keep-corrections:applied-to-virtual-qubit-0 is accepted only when the observed state equals the state predicted by exactly that mechanism",
